@@ -55,14 +55,12 @@ func (t *MemTable) Delete(key []byte, seqNum uint64) (full bool) {
 	return t.size > uint64(t.memSize)
 }
 
-// ScanPrefix returns all entries matching the prefix in ascending order. This
-// method transparently omits deleted entries.
+// ScanPrefix returns all entries matching the prefix in ascending order,
+// including delete markers: a marker has to take part in the merge with older
+// tables so that it can hide the versions below it.
 func (t *MemTable) ScanPrefix(prefix []byte) iter.Seq[kv.Entry] {
 	return func(yield func(kv.Entry) bool) {
 		for node := range t.zt.AscendPrefix(prefix) {
-			if isDeleteOp(node) {
-				continue
-			}
 			if !yield(newEntryFromNode(node)) {
 				return
 			}
